@@ -182,7 +182,7 @@ def directed_cases(rng, tier):
         n += 1
     regs = {1: (0xFF11, 0xFF12, 0xFF14), 2: (0xFF16, 0xFF17, 0xFF19), 3: (0xFF1B, 0xFF1A, 0xFF1E), 4: (0xFF20, 0xFF21, 0xFF23)}
     for ch in (1, 2, 3, 4):
-        for phase in (range(8) if tier != 'quick' else [rng.randrange(8), rng.randrange(8)]):
+        for phase in range(8):          # every frame-sequencer step: the extra length clock exists in every second one
             lines = [ctor, 'sys.w 0xFF26 0x80', 'sys.w 0xFF24 0x77', 'sys.w 0xFF25 0xFF']
             for c, (nl, nv, nt) in regs.items():
                 lines.append('sys.w %d %d' % (nv, 0x80 if c == 3 else 0xF3))
